@@ -221,7 +221,8 @@ class FrameQueueFrag(FrameQueue):
                 self._frags.unpack(frame.pack())  # make copy not reference
                 return True
             if (
-                self._frags.header.from_node is not None  # if not just initialized
+                # only while a message is being assembled (not after its last fragment)
+                self._frags.header.message_type in (MSG_FRAG_FIRST, MSG_FRAG_MORE)
                 and frame.header.to_node == self._frags.header.to_node
                 and frame.header.frame_id == self._frags.header.frame_id
             ):
